@@ -29,7 +29,7 @@ def check(prog, run):
         return
     run.rule("R4", "both tracks' sort keys are produced by the one tick conversion of the call's own timestamp (C03.R1 instances): equal or ordered submitted times stay equal or ordered across tracks")
     from . import c03
-    c03.tick_rule(m.cx, run, "R4")
+    c03.tick_rule(m.cx, run, "R4", exact=False)
     n = 0
     for lf in m.leaves:
         if not m.audio_present(lf):
@@ -53,18 +53,23 @@ def check(prog, run):
 
 
 class _Map:
-    def __init__(self, run, mp):
+    def __init__(self, run, mp, skip=None):
         self.run, self.mp = run, mp
         self.extra = run.extra
+        self.skip = skip or (lambda key: False)      # instances of the shared rule that the borrowing property does not speak about
 
     def check(self, cond, rule, key, ok="", bad="", loc=None, how="structural"):
+        if self.skip(key):
+            return cond
         return self.run.check(cond, self.mp.get(rule, rule), key, ok, bad, loc, how)
 
     def ok(self, rule, key, detail="", loc=None, how="structural"):
-        self.run.ok(self.mp.get(rule, rule), key, detail, loc, how)
+        if not self.skip(key):
+            self.run.ok(self.mp.get(rule, rule), key, detail, loc, how)
 
     def bad(self, rule, key, detail, loc=None, path=None):
-        self.run.bad(self.mp.get(rule, rule), key, detail, loc, path)
+        if not self.skip(key):
+            self.run.bad(self.mp.get(rule, rule), key, detail, loc, path)
 
     def floor(self, rule, n, floor, what):
         self.run.floor(self.mp.get(rule, rule), n, floor, what)
